@@ -39,14 +39,14 @@ func main() {
 	add("C08", "F4-nl", "fixed", "1279c07", "a newline swallowed by an INVALID token did not start a new line", lexCase("C08", f4, "ab\nabc"))
 	// ---- F3 (open): regular definitions are shared return addresses, not macros
 	f3a := []LexDef{reg("_x", Seq(Lit('a'), Lit('b'))), tok("t", Seq(Ref("_x"), Lit('c'))), tok("u", Seq(Lit('a'), Ref("_x"), Lit('d')))}
-	add("C01", "F3-a", "open", "", "regdef shared between two use sites: with _x:'a' 'b'; t:_x 'c'; u:'a' _x 'd'; the input abd is lexed as token u", lexCase("C01", f3a, "abd"))
-	add("C01", "F3-b", "open", "", "regdef shared between two use sites: with _x:'a' 'b'; t:_x 'c'; u:'a' _x 'd'; the sentence aabd of u is rejected", lexCase("C01", f3a, "aabd"))
+	add("C01", "F3-a", "fixed", "d9858c3", "regdef shared between two use sites: with _x:'a' 'b'; t:_x 'c'; u:'a' _x 'd'; the input abd is lexed as token u", lexCase("C01", f3a, "abd"))
+	add("C01", "F3-b", "fixed", "d9858c3", "regdef shared between two use sites: with _x:'a' 'b'; t:_x 'c'; u:'a' _x 'd'; the sentence aabd of u is rejected", lexCase("C01", f3a, "aabd"))
 	f3c := []LexDef{reg("_o", Seq(Opt(Seq(Lit('a'))))), tok("t", Seq(Ref("_o"), Lit('b')))}
-	add("C01", "F3-c", "open", "", "nullable regdef: with _o:['a']; t:_o 'b'; the input b is rejected", lexCase("C01", f3c, "b"))
+	add("C01", "F3-c", "fixed", "d9858c3", "nullable regdef: with _o:['a']; t:_o 'b'; the input b is rejected", lexCase("C01", f3c, "b"))
 	f3d := []LexDef{reg("_y", Seq(Lit('c'), Opt(Seq(Lit('c'), Lit('c'))))), tok("w", Seq(Lit('r'), Rep(Seq(Ref("_y")))))}
-	add("C01", "F3-d", "open", "", "regdef inside a repetition: with _y:'c' ['c' 'c']; w:'r' {_y}; the input rcc is not one token w", lexCase("C01", f3d, "rcc"))
+	add("C01", "F3-d", "fixed", "d9858c3", "regdef inside a repetition: with _y:'c' ['c' 'c']; w:'r' {_y}; the input rcc is not one token w", lexCase("C01", f3d, "rcc"))
 	f3e := []LexDef{reg("_x", Seq(Lit('a'), Lit('b'))), tok("v", Seq(Lit('q'), Rep(Seq(Lit('a'))), Ref("_x"), Lit('z')))}
-	add("C01", "F3-e", "open", "", "regdef after a repetition that shares its first character: with _x:'a' 'b'; v:'q' {'a'} _x 'z'; the input qaabz is rejected", lexCase("C01", f3e, "qaabz"))
+	add("C01", "F3-e", "fixed", "d9858c3", "regdef after a repetition that shares its first character: with _x:'a' 'b'; v:'q' {'a'} _x 'z'; the input qaabz is rejected", lexCase("C01", f3e, "qaabz"))
 
 	// ---- F8 (fixed): canRecover at any dot position
 	nt := func(n string) Sym { return Sym{Kind: SNT, Name: n} }
